@@ -1,13 +1,212 @@
-(* C18 — pinned statements; proofs live in Proofs/. *)
-From NW Require Import Base.Bytes Model.SchemaTypes Gen.Schema Model.Codec Model.Ids Model.Server.
+(* C18 — Membership events are a faithful change log of each channel.
+   Pinned statements (types pasted verbatim from the proved lemmas by tools/pin.py); proofs in Proofs/Server*.v. *)
+From NW Require Import Base.Bytes Model.SchemaTypes Gen.Schema Model.Codec Model.MsgInfo Model.Ids Model.Server.
+From NW Require Import Proofs.ServerLib Proofs.ServerRoute Proofs.ServerHandlers Proofs.ServerSteps Proofs.ServerPhases.
+From NW Require Import Proofs.ServerInvBase Proofs.ServerInv Proofs.ServerUniq Proofs.ServerInvCor.
+From NW Require Import Proofs.ServerDelivery Proofs.ServerEvents Proofs.ServerIdentity.
 
-(* the model computes: a client connects, identifies and creates a channel *)
-Example C18_model_smoke :
-  let cfg := {| domain := bs "localhost"; has_mod := false; op_auth := false; op_fbp := false; op_fev := false; op_spp := false;
-                proto := []; max_clients := 10; max_subs := 10; max_payload_cfg := 1024; max_inflight := 10; max_message := 1024;
-                keepalive := 60000; min_keepalive := 1000; max_conns := 16; pool_budget := 4194304 |} in
-  let s := run_state cfg init [Open 1; Bytes 1 (bs "CONNECT version=1 heartbeat_interval=0" ++ [NL]) [] [];
-                               Bytes 1 (bs "IDENTIFY username=alice" ++ [NL]) [] [];
-                               Bytes 1 (bs "JOIN id=1 channel=!c1@localhost" ++ [NL]) [] []] in
-  map fst (chans s) = [bs "c1"] /\ map fst (router s) = [bs "alice"].
-Proof. vm_compute. split; reflexivity. Qed.
+Theorem C18_join_events_exact :
+  forall (cfg : scfg) (h : N) (me : nid) (m : msg) (c c' : ctx),
+    Inv cfg (st c) ->
+    nd me = domain cfg ->
+    h_join cfg h me m c = (c', None) ->
+    exists (hd : str) (n : nid) (hs : list N),
+      chan_parse (get_str m "channel") = Some (hd, domain cfg) /\
+      (let ch := match alookup hd (chans (st c)) with
+                 | Some c0 => c0
+                 | None => new_chan cfg
+                 end in
+       let created := match alookup hd (chans (st c)) with
+                      | Some _ => false
+                      | None => true
+                      end in
+       let ev := event_msg (bs "MEMBER_JOINED") (chan_full hd (domain cfg)) (nid_full n) created
+         in
+       (n = me \/
+        nd n = domain cfg /\ has_connection (st c) (nu n) = true /\ is_owner ch me = true) /\
+       ~ In n (ch_members ch) /\
+       nd n = domain cfg /\
+       ch_members (insert_member ch n) = ch_members ch ++ [n] /\
+       st c' = index_add (nu n) (get_str m "channel") (put_chan hd (insert_member ch n) (st c)) /\
+       new_outs c c' =
+       notify_mod cfg "MEMBER_JOINED" hd n created ++
+       map (fun h' : N => OSend h' ev None) hs ++ [OSend h (join_ack m) None] /\
+       NoDup hs /\
+       (forall h' : N, In h' hs <-> h' <> h /\ conn_of (st c) (ch_members ch ++ [n]) h')).
+Proof. exact C18_join_events. Qed.
+
+Theorem C18_join_refused_no_event :
+  forall (cfg : scfg) (h : N) (me : nid) (m : msg) (c c' : ctx) (e : perr),
+    h_join cfg h me m c = (c', Some e) ->
+    st c' = st c /\
+    (forall (h' : N) (m' : msg) (p : option (list N)), ~ In (OSend h' m' p) (new_outs c c')) /\
+    (new_outs c c' = [] \/
+     (exists (hd : str) (n : nid) (created : bool),
+        new_outs c c' =
+        [OMod (McEvent (bs "MEMBER_JOINED") (chan_full hd (domain cfg)) (nid_full n) created)] /\
+        e = PInternal /\ has_mod cfg && op_fev cfg = true /\ head_outcome (script c) = MErr)).
+Proof. exact C18_join_refused. Qed.
+
+Theorem C18_leave_events_exact :
+  forall (cfg : scfg) (req : option N) (id : N) (me : nid) (hd dom cf : str) 
+      (ob : option nid) (c c' : ctx),
+    Inv cfg (st c) ->
+    leave_core cfg req id me hd dom cf ob c = (c', None) ->
+    let n := match ob with
+             | Some n => n
+             | None => me
+             end in
+    exists (ch : chan) (hs1 : list N),
+      dom = domain cfg /\
+      alookup hd (chans (st c)) = Some ch /\
+      In n (ch_members ch) /\
+      (ob <> None -> is_owner ch me = true) /\
+      (let chf := chan_full hd (domain cfg) in
+       let was_owner := is_owner ch n in
+       let rest := ndel n (ch_members ch) in
+       let ev_left := event_msg (bs "MEMBER_LEFT") chf (nid_full n) was_owner in
+       NoDup hs1 /\
+       (forall h' : N, In h' hs1 <-> req <> Some h' /\ conn_of (st c) (ch_members ch) h') /\
+       st c' = leave_st hd cf n ch (pick_opt (hints c) hd ch n) (st c) /\
+       match pick_opt (hints c) hd ch n with
+       | Some pick =>
+           was_owner = true /\
+           In pick rest /\
+           pick = pick_of (hints c) hd rest n /\
+           alookup hd (chans (st c')) = Some (left_chan ch n (Some pick)) /\
+           ch_owner (left_chan ch n (Some pick)) = Some pick /\
+           ch_members (left_chan ch n (Some pick)) = rest /\
+           (exists hs2 : list N,
+              NoDup hs2 /\
+              (forall h' : N, In h' hs2 <-> conn_of (st c) rest h') /\
+              new_outs c c' =
+              notify_mod cfg "MEMBER_LEFT" hd n true ++
+              map (fun h' : N => OSend h' ev_left None) hs1 ++
+              notify_mod cfg "MEMBER_JOINED" hd pick true ++
+              map
+                (fun h' : N =>
+                 OSend h' (event_msg (bs "MEMBER_JOINED") chf (nid_full pick) true) None) hs2 ++
+              ack_out req id)
+       | None =>
+           (was_owner = false \/ rest = []) /\
+           new_outs c c' =
+           notify_mod cfg "MEMBER_LEFT" hd n was_owner ++
+           map (fun h' : N => OSend h' ev_left None) hs1 ++ ack_out req id
+       end).
+Proof. exact C18_leave_events. Qed.
+
+Theorem C18_replay_join_step :
+  forall (cfg : scfg) (h : N) (me : nid) (m : msg) (c c' : ctx),
+    Inv cfg (st c) ->
+    nd me = domain cfg ->
+    h_join cfg h me m c = (c', None) ->
+    exists (hd : str) (n : nid),
+      chan_parse (get_str m "channel") = Some (hd, domain cfg) /\
+      (let ch := match alookup hd (chans (st c)) with
+                 | Some c0 => c0
+                 | None => new_chan cfg
+                 end in
+       let created := match alookup hd (chans (st c)) with
+                      | Some _ => false
+                      | None => true
+                      end in
+       let ev := event_msg (bs "MEMBER_JOINED") (chan_full hd (domain cfg)) (nid_full n) created
+         in
+       alookup hd (chans (st c')) = Some (insert_member ch n) /\
+       ch_members (insert_member ch n) = ch_members ch ++ [n] /\
+       (forall hb : N,
+        hb <> h ->
+        conn_of (st c) (ch_members ch ++ [n]) hb ->
+        events_to hb (new_outs c c') = [ev] /\
+        (forall x : str,
+         In x
+           (fold_left apply_event (events_to hb (new_outs c c')) (map nid_full (ch_members ch))) <->
+         In x (map nid_full (ch_members (insert_member ch n)))))).
+Proof. exact C18_replay_join. Qed.
+
+Theorem C18_replay_leave_step :
+  forall (cfg : scfg) (req : option N) (id : N) (me : nid) (hd dom cf : str) 
+      (ob : option nid) (c c' : ctx),
+    Inv cfg (st c) ->
+    leave_core cfg req id me hd dom cf ob c = (c', None) ->
+    let n := match ob with
+             | Some n => n
+             | None => me
+             end in
+    exists ch : chan,
+      alookup hd (chans (st c)) = Some ch /\
+      In n (ch_members ch) /\
+      (let chf := chan_full hd (domain cfg) in
+       let rest := ndel n (ch_members ch) in
+       let popt := pick_opt (hints c) hd ch n in
+       let ev_left := event_msg (bs "MEMBER_LEFT") chf (nid_full n) (is_owner ch n) in
+       forall hb : N,
+       req <> Some hb ->
+       conn_of (st c) rest hb ->
+       alookup hd (chans (st c')) = Some (left_chan ch n popt) /\
+       ch_members (left_chan ch n popt) = rest /\
+       events_to hb (new_outs c c') =
+       ev_left
+       :: match popt with
+          | Some pick => [event_msg (bs "MEMBER_JOINED") chf (nid_full pick) true]
+          | None => []
+          end /\
+       (forall x : str,
+        In x
+          (fold_left apply_event (events_to hb (new_outs c c')) (map nid_full (ch_members ch))) <->
+        In x (map nid_full rest))).
+Proof. exact C18_replay_leave. Qed.
+
+Theorem C18_failed_leave_notification :
+  forall (cfg : scfg) (req : option N) (id : N) (me : nid) (hd dom cf : str) 
+      (ob : option nid) (c c' : ctx) (e : perr),
+    Inv cfg (st c) ->
+    leave_core cfg req id me hd dom cf ob c = (c', Some e) ->
+    let n := match ob with
+             | Some n => n
+             | None => me
+             end in
+    c' = c \/
+    (exists (ch : chan) (hs1 hs2 : list N),
+       dom = domain cfg /\
+       alookup hd (chans (st c)) = Some ch /\
+       In n (ch_members ch) /\
+       (let chf := chan_full hd (domain cfg) in
+        let was_owner := is_owner ch n in
+        let rest := ndel n (ch_members ch) in
+        let popt := pick_opt (hints c) hd ch n in
+        let mod_left := OMod (McEvent (bs "MEMBER_LEFT") chf (nid_full n) was_owner) in
+        let mod_joined :=
+          fun pick : nid => OMod (McEvent (bs "MEMBER_JOINED") chf (nid_full pick) true) in
+        e = PInternal /\
+        has_mod cfg && op_fev cfg = true /\
+        st c' = leave_st hd cf n ch popt (st c) /\
+        NoDup hs1 /\
+        (forall h' : N, In h' hs1 <-> req <> Some h' /\ conn_of (st c) (ch_members ch) h') /\
+        NoDup hs2 /\
+        (forall h' : N, In h' hs2 <-> conn_of (st c) rest h') /\
+        (head_outcome (script c) = MErr /\
+         (exists ok_joined : bool,
+            new_outs c c' =
+            [mod_left] ++
+            match popt with
+            | Some pick =>
+                [mod_joined pick] ++
+                (if ok_joined
+                 then
+                  map
+                    (fun h' : N =>
+                     OSend h' (event_msg (bs "MEMBER_JOINED") chf (nid_full pick) true) None)
+                    hs2
+                 else [])
+            | None => []
+            end) \/
+         (exists pick : nid,
+            popt = Some pick /\
+            new_outs c c' =
+            [mod_left] ++
+            map
+              (fun h' : N =>
+               OSend h' (event_msg (bs "MEMBER_LEFT") chf (nid_full n) was_owner) None) hs1 ++
+            [mod_joined pick] ++ ack_out req id)))).
+Proof. exact C18_leave_failed. Qed.
